@@ -52,6 +52,15 @@ def part_split(ctx, part):
         cuts = sorted(r.sample(range(1, len(prog)), ncut))
         pieces = [prog[a:b] for a, b in zip([0] + cuts, cuts + [len(prog)])]
         texts = [rbgen.render(p) for p in pieces]
+        # order-sensitive preloads: a variable and a method that two preloads define differently; a preloaded class that
+        # leaves placeholders behind (an attribute never assigned, a parameter no call ever types)
+        if len(texts) >= 3 and r.random() < 0.7:
+            texts[0] += "shared_v = 1\ndef shared_m\n  1\nend\n"
+            texts[1] += "shared_v = \"s\"\ndef shared_m\n  \"s\"\nend\n"
+            texts[-1] = "dbtp shared_v\ndbtp shared_m\n" + texts[-1]
+        if r.random() < 0.6:
+            texts[0] += "class Acct\n  attr_reader :owner\n  def pay(amount, note)\n    amount\n  end\nend\n"
+            texts[-1] = "acct = Acct.new\ndbtp acct.owner\nacct.pay(1)\nacct.owner.zork\n" + texts[-1]
         whole = "".join(texts)
         offset = sum(t.count("\n") for t in texts[:-1])
         res = {}
@@ -61,13 +70,16 @@ def part_split(ctx, part):
                 a = wd.ti(["t.rb"] + flag)
             with C.Workdir() as wd:
                 wd.write(texts[-1], "t.rb")
-                names = [wd.write(t, "pre%d.rb" % j) for j, t in enumerate(texts[:-1])]
+                pool = ["zeta.rb", "alpha.rb", "mid.rb", "beta.rb"]
+                r2 = C.rng_for(ctx.pid, ctx.seed, "names%d" % i)
+                r2.shuffle(pool)                      # the configured order is not the lexicographic one
+                names = [wd.write(t, pool[j]) for j, t in enumerate(texts[:-1])]
                 wd.write(json.dumps({"preload": names}), ".ti-loader.json")
                 b = wd.ti(["t.rb"] + flag)
             res[" ".join(flag)] = (a, b)
         return texts, offset, res
 
-    for item in C.pmap(one, range(ctx.n(30, 300)), par=6):
+    for item in C.pmap(one, range(ctx.n(50, 400)), par=6):
         if item is None:
             continue
         texts, offset, res = item
@@ -80,7 +92,7 @@ def part_split(ctx, part):
                 continue
             want = rebase(a.out, offset)
             got = [l for l in b.out.split("\n") if l]
-            foreign = [l for l in got if re.match(r'^@?pre\d+\.rb:::', l)]
+            foreign = [l for l in got if re.match(r'^@?(zeta|alpha|mid|beta)\.rb:::', l)]
             if foreign:
                 part.failures.append(Failure("line_for_preload", "a line names a preloaded file: %r" % foreign[0],
                                              {"files": texts, "flag": flag, "out": b.out}))
